@@ -52,6 +52,11 @@ class Spec:
         h = int(f[1])
         if not 0 <= h < n:
             return False
+        if k == "kc":
+            return self.live[h]
+        if k == "vt":
+            o = int(f[2])
+            return (not self.live[h]) and 0 <= o < len(self.alive) and self.alive[o]
         if k == "dc":
             return not self.live[h]
         if k == "dt":
@@ -66,7 +71,7 @@ class Spec:
         g = int(f[2])
         if not 0 <= g < n:
             return False
-        if k in ("cc", "mc", "vc"):
+        if k in ("cc", "mc", "vc", "vm"):
             return (not self.live[h]) and self.live[g]
         return self.live[h] and self.live[g]
 
@@ -74,16 +79,19 @@ class Spec:
         """static typing of the C++ harness (an ill-typed token would not compile)"""
         f = tok.split(":")
         k = f[0]
-        if k in ("cB", "cD", "ri", "rd", "dc", "dt"):
+        if k in ("cB", "cD", "ri", "rd", "dc", "dt", "kc"):
             return True
         h = int(f[1])
+        if k == "vt":
+            o = int(f[2])
+            return h < self.nb and (o >= len(self.kind) or self.kind[o] == "D")
         if k in ("rc", "ra"):
             if f[2] == "-" or h < self.nb:
                 return True
             o = int(f[2])
             return o >= len(self.kind) or self.kind[o] == "D"
         g = int(f[2])
-        if k == "vc":
+        if k in ("vc", "vm", "va", "vr"):
             return h < self.nb <= g
         return self.same_type(h, g)
 
@@ -99,7 +107,7 @@ class Spec:
             self.creator[int(f[1])] += 1
         elif k == "rd":
             self.creator[int(f[1])] -= 1
-        elif k in ("dc", "cc", "mc", "vc", "rc"):
+        elif k in ("dc", "cc", "mc", "vc", "rc", "vm", "vt"):
             self.live[int(f[1])] = True
         elif k == "dt":
             self.live[int(f[1])] = False
@@ -181,8 +189,10 @@ class Sim(Spec):
         val = lambda s: None if s == "-" else int(s)
         if k == "dc":
             self.ptr[int(f[1])] = None
-        elif k in ("cc", "vc"):
+        elif k in ("cc", "vc", "vm", "va", "vr"):     # no converting move exists: the source keeps its pointer
             self.ptr[int(f[1])] = self.ptr[int(f[2])]
+        elif k == "vt":
+            self.ptr[int(f[1])] = int(f[2])
         elif k == "mc":
             self.ptr[int(f[1])] = self.ptr[int(f[2])]; self.ptr[int(f[2])] = None
         elif k in ("rc", "ra"):
@@ -216,7 +226,10 @@ def alphabet(nb, nd, nobj_max, kinds):
                     toks += ["cc:%d:%d" % (h, g), "mc:%d:%d" % (h, g)]
                 toks += ["ca:%d:%d" % (h, g), "ma:%d:%d" % (h, g)]
             elif h < nb <= g:
-                toks.append("vc:%d:%d" % (h, g))
+                toks += ["vc:%d:%d" % (h, g), "vm:%d:%d" % (h, g), "va:%d:%d" % (h, g), "vr:%d:%d" % (h, g)]
+        toks.append("kc:%d" % h)
+        if h < nb:
+            toks += ["vt:%d:%d" % (h, o) for o in range(nobj_max) if kinds[o] == "D"]
     for o in range(nobj_max):
         toks += ["ri:%d" % o, "rd:%d" % o]
     return toks
@@ -241,7 +254,7 @@ def gen_random(r, nb, nd, maxlen, nobj):
                 tok = r.choice(bad) if bad else r.choice(legal)
             else:
                 # favour releases so that last references are reached often
-                w = [(3 if t[:2] in ("rd", "dt") else 2 if t[:2] in ("ca", "ma", "ra") else 1) for t in legal]
+                w = [(3 if t[:2] in ("rd", "dt") else 2 if t[:2] in ("ca", "ma", "ra", "va", "vr", "vm", "vt", "kc") else 1) for t in legal]
                 tok = r.choices(legal, weights=w)[0]
         out.append(tok)
         hist[tok.split(":")[0]] = hist.get(tok.split(":")[0], 0) + 1
@@ -337,6 +350,12 @@ HAND = [   # the histories the design calls out
     "cB dc:0 dc:1 ma:0:1 mc:2:1 ca:0:2 rd:0",      # moves from empty handles
     "cB rc:0:0 rc:1:0 rd:0 ca:0:1 dt:1 dt:0",
     "cB ri:0 rd:0 rd:0",
+    "cD rc:3:0 rd:0 vm:0:3 dt:3 dt:0",             # convert from an rvalue of another handle type, release both
+    "cD vt:0:0 rd:0 dt:0",                         # IntrusivePtr<Base> x = IntrusivePtr<Derived>(p)
+    "cD rc:3:0 dc:0 vr:0:3 rd:0 dt:3 dt:0",        # base = std::move(derived)
+    "cD rc:3:0 dc:0 va:0:3 rd:0 dt:0 dt:3",        # base = derived
+    "cD rc:3:0 rd:0 kc:3 dt:3",                    # IntrusivePtr<const Base> c = std::move(d)
+    "cB rc:0:0 rd:0 kc:0 dt:0",
 ]
 
 
@@ -435,7 +454,7 @@ def run(ctx):
         ctx.count(len(cases))
         for c, ml in zip(cases, mlines):
             # non-trivial: some object was destroyed by a handle operation or an assignment replaced a non-null pointer
-            if "x" in ml.split(" ; ")[-1].split("|")[1] and any(t[:2] in ("ca", "ma", "ra", "dt") for t in c.split()):
+            if "x" in ml.split(" ; ")[-1].split("|")[1] and any(t[:2] in ("ca", "ma", "ra", "dt", "va", "vr") for t in c.split()):
                 ctx.nontriv(c)
         nmis += len(mism)
 
@@ -494,7 +513,7 @@ def run(ctx):
                                 "(state, operation) pair that any history of %d operations passes through)"
                                 " + %d seeded histories of 5 operations" % (cdepth, nstates, cdepth - 1, ncanon, cdepth, ndeep)))
     ctx.cov["mismatches"] = nmis
-    ctx.rule = ("histories of create / default, copy, move, converting, raw constructor / destructor / copy, move, raw assignment "
+    ctx.rule = ("histories of create / default, copy, move, converting (from lvalue, rvalue and temporary of another handle type, to const T), raw constructor / destructor / copy, move, raw, converting assignment "
                 "(self-assignment and null included) / explicit refInc, refDec over 3 objects x 5 handles (random, length <= 40, 4% calls "
                 "outside the contract which both sides must reject) and over 2 objects x 3 handles (exhaustive to the stated depth); after every step "
                 "useCount of every live object, liveness from the destructor log, every handle's target and all ==/!=/< between handles "
